@@ -293,4 +293,39 @@ example : ReachingTrial exIn [3] [2] [7] [7] (-1) 5 ∧ exIn.genLd = false ∧ e
   ⟨⟨by decide, by decide, by decide, by decide, by decide, ⟨rfl, by decide, by decide⟩, ⟨rfl, by decide, by decide⟩,
     by decide, exIn_shape⟩, rfl, rfl, exIn_xi_pos, by decide⟩
 
+/-! ### rejections change nothing -/
+
+/-- **Rejections leave the old path in place.** `run_md` keeps the old path as the live path of the
+    ensemble whenever the move is not accepted, with exactly its old frames; it installs the trial
+    path exactly on `ACC`.  (In the model the old path is an immutable input of `shoot`: no step of
+    `shoot` has write access to it — `prepare_shooting_point` works on a copy, `trial_path +=
+    path_back` copies.  That the Python objects behave like this is what the tie's deep snapshot of
+    the old path, frame by frame with object identities, checks on every case.) -/
+theorem reject_leaves_old_untouched (v : Variant) (i : ShootIn) (o : ShootOut) (h : shoot v i = .ok o) :
+    (o.accept = false → runMd v i = .ok
+        { status := o.status, live := i.old, replaced := false, trialLen := o.trial.length }) ∧
+    (o.accept = true → runMd v i = .ok
+        { status := .ACC, live := o.trial, replaced := true, trialLen := o.trial.length }) := by
+  have hacc := accept_iff_status_acc v i o h
+  unfold runMd
+  rw [h]
+  constructor
+  · intro ha
+    have : ¬ o.status = .ACC := by
+      intro hs; rw [hacc.2 hs] at ha; cases ha
+    simp [this]
+  · intro ha
+    simp [hacc.1 ha]
+
+example : (runMd .asIs { exIn with forw := [2, 2, 2] }).toOption.map (fun o => (o.live, o.replaced))
+    = some ([-1, 2, 2, -1], false) := by
+  have h := exIn_reject_eval
+  cases hs : shoot .asIs { exIn with forw := [2, 2, 2] } with
+  | error e => rw [hs] at h; cases h
+  | ok o =>
+    rw [hs] at h; simp only [Except.toOption, Option.some.injEq] at h; subst h
+    unfold runMd
+    rw [hs]
+    rfl
+
 end Infretis.C09
